@@ -6,6 +6,7 @@ import Fcgi.Props.C03Str
 import Fcgi.Props.C03Chunk
 import Fcgi.Props.C03StrInv
 import Fcgi.Props.C03StrSet
+import Fcgi.Props.C03StrNone
 import Fcgi.Props.C04
 import Fcgi.Props.C04Hostile
 import Fcgi.Props.C05
@@ -41,6 +42,7 @@ import Fcgi.Props.C07Echo3
 import Fcgi.Props.C07NoFuel3
 import Fcgi.Props.C07NoFuel4
 import Fcgi.Props.C07NoFuel5
+import Fcgi.Props.C07NoFuel6
 import Fcgi.Props.C08
 import Fcgi.Props.C08Inv
 import Fcgi.Props.C08Replies
@@ -66,6 +68,8 @@ import Fcgi.Props.E2EUnbounded
 import Fcgi.Props.C11FilterAnysize
 import Fcgi.Props.C11NoFuel
 import Fcgi.Props.C11Unread
+import Fcgi.Props.C11NoFuel2
+import Fcgi.Props.C11Abort2
 import Fcgi.Props.C12
 import Fcgi.Props.C12Inv
 import Fcgi.Props.C12Wf
@@ -85,6 +89,9 @@ import Fcgi.Props.C12NoFuel
 import Fcgi.Props.C12Chain2
 import Fcgi.Props.C12Chain3
 import Fcgi.Props.C12Chain4
+import Fcgi.Props.C12NoFuel2
+import Fcgi.Props.C12NoFuel3
+import Fcgi.Props.C12Chain5
 import Fcgi.Props.C13
 import Fcgi.Props.C13Conn
 import Fcgi.Props.C14b
@@ -105,10 +112,7 @@ import Fcgi.Props.C18None
 import Fcgi.Props.C18None2
 import Fcgi.Props.C19
 import Fcgi.Props.C20
-import Fcgi.Props.C07NoFuel6
-import Fcgi.Props.C11NoFuel2
-import Fcgi.Props.C12NoFuel3
-import Fcgi.Props.C12NoFuel2
+import Fcgi.Props.C12NoFuel4
 
 /-!
 # Headline — one checked statement per property
@@ -142,9 +146,9 @@ requests) and from the echo Responder (C07 Clauses 21, 23, 25, 26) and the Filte
 (`C11NoFuel`), C12 Clauses 1, 5, 9, 10 (`C12NoFuel`: Responder EOF / failure at any offset, write error, read error at
 any index) and C14 Clauses 1–2 (`C14NoFuel`).  The chain bundles are `Sent.OKn` / `UReq.OKn`
 (no cost field; `Props/C07NoFuel.lean`, `C07NoFuel6.lean`, `C11NoFuel2.lean`, `C12NoFuel2.lean`, `C12NoFuel3.lean`).  It REMAINS, as an
-artefact of the proofs only (removable by the recipe of `Proofs/E2ENoFuel.lean`), in FOUR conjuncts: C07 Clauses 10 and 12
-(`2·n + …`: the number of `fill_buf`/`consume` rounds; Clause 10 also `|content| ≤ n`) and C12 Clauses 2, 3 (Filter / Authorizer
-truncation at any offset: `wcost |data| + c ≤ 1000`).
+artefact of the proofs only (removable by the recipe of `Proofs/E2ENoFuel.lean`), in TWO conjuncts: C07 Clauses 10 and 12
+(`2·n + …`: the number of `fill_buf`/`consume` rounds; Clause 10 also `|content| ≤ n`); C12 Clauses 2, 3 lost it in
+`Props/C12NoFuel4.lean`.
 `C11Clause7` is the `_anysize` table of
 `Props/C11FilterAnysize.lean` (no `|Stdin wire| ≤ 31000`).
 
@@ -3804,8 +3808,8 @@ end Fcgi.Headline
 
 **The conjuncts of `C12_headline`.**
 1. `C12E.eof_any_offset_e2e_nofuel` — Responder: EOF at ANY offset of the wire
-2. `C12E.eof_any_offset_filter_all_e2e_unbounded` — Filter: EOF at ANY offset
-3. `C12E.eof_any_offset_auth_closed_e2e_unbounded` — Authorizer with tail traffic: EOF at ANY offset, closed
+2. `C12E.eof_any_offset_filter_all_e2e_nofuel` — Filter: EOF at ANY offset
+3. `C12E.eof_any_offset_auth_closed_e2e_nofuel` — Authorizer with tail traffic: EOF at ANY offset, closed
    final state
 4. `C12E.read_err_mid_stream_e2e_unbounded` — a read ERROR mid-stream: the handler gets exactly the
    transport's error
@@ -3905,7 +3909,7 @@ end
 section
 namespace Fcgi.C12E
 open Fcgi Fcgi.Req Fcgi.Str Fcgi.Async Fcgi.Run Fcgi.Spec Fcgi.E2E Fcgi.C07E Fcgi.C07U Fcgi.C12Inv Fcgi.Indep3 Fcgi.EofErr
-/-- Filter: EOF at ANY offset  (= `Fcgi.C12E.eof_any_offset_filter_all_e2e_unbounded`, `Props/C12Unbounded.lean`) -/
+/-- Filter: EOF at ANY offset  (= `Fcgi.C12E.eof_any_offset_filter_all_e2e_nofuel`, `Props/C12NoFuel4.lean`) -/
 def C12Clause2 : Prop :=
   ∀ {p : Preamble} {recs srecs drecs : List Rec} {content content2 : Bytes}
     {b mc : Nat} {data : Bytes} {st : ExitStatus} {t : Transport} {fuel : Nat} (k : Nat)
@@ -3915,8 +3919,7 @@ def C12Clause2 : Prop :=
     (hd : StreamRecs p.id 8 content2 drecs) (hdn : NoiseFits (alignedBufsize b) drecs)
     (hin : t.input = (serAll recs ++ (serAll srecs ++ serAll drecs)).take k)
     (hb : Ben t) (hem : t.endMode = .eof) (hev : hsCount t.events = 0)
-    (hfuel : t.rd.length + t.wr.length + 1 ≤ fuel)
-    (hhf : wcost data.length + 24 ≤ 1000),
+    (hfuel : t.rd.length + t.wr.length + 1 ≤ fuel),
     ∃ c' O₁ O₂, runTask fuel (connS b mc t [(canonicalF data st, true)]) 0 none = (c', "RET") ∧
       c'.phase = .finished ∧ O₁ ++ O₂ = owedStream p.id 5 mc srecs ++ owedStream p.id 8 mc drecs ∧
       (∃ w, c'.env.tr.wlog = t.wlog ++ w ∧ w <+: expectedLogN p recs mc data st O₁ O₂) ∧
@@ -3936,7 +3939,7 @@ def C12Clause2 : Prop :=
 
 theorem C12Clause2_holds : C12Clause2 := by
   unfold C12Clause2
-  exact @eof_any_offset_filter_all_e2e_unbounded
+  exact @eof_any_offset_filter_all_e2e_nofuel
 
 end Fcgi.C12E
 end
@@ -3944,7 +3947,7 @@ end
 section
 namespace Fcgi.C12E
 open Fcgi Fcgi.Req Fcgi.Str Fcgi.Async Fcgi.Run Fcgi.Spec Fcgi.E2E Fcgi.C07E Fcgi.C07U Fcgi.C12Inv Fcgi.Indep3 Fcgi.EofErr
-/-- Authorizer with tail traffic: EOF at ANY offset, closed final state  (= `Fcgi.C12E.eof_any_offset_auth_closed_e2e_unbounded`, `Props/C12Unbounded.lean`) -/
+/-- Authorizer with tail traffic: EOF at ANY offset, closed final state  (= `Fcgi.C12E.eof_any_offset_auth_closed_e2e_nofuel`, `Props/C12NoFuel4.lean`) -/
 def C12Clause3 : Prop :=
   ∀ {p : Preamble} {recs tail : List Rec} {b mc : Nat} {rd : ARead} {wr : Bool}
     {data : Bytes} {st : ExitStatus} {more : List (List HOp × Bool)} {t : Transport} {fuel : Nat} (k : Nat)
@@ -3956,8 +3959,7 @@ def C12Clause3 : Prop :=
     (hwd : wr = false → data = [])
     (hin : t.input = (serAll recs ++ serAll tail).take k) (hben : Ben t) (hem : t.endMode = .eof)
     (hev : hsCount t.events = 0)
-    (hfuel : t.rd.length + t.wr.length + 1 ≤ fuel)
-    (hhf : wcost data.length + 8 ≤ 1000),
+    (hfuel : t.rd.length + t.wr.length + 1 ≤ fuel),
     ∃ c', runTask fuel (connS b mc t ((aHandler rd wr data st, true) :: more)) 0 none = (c', "RET") ∧
       c'.phase = .finished ∧
       ((k < (serAll recs).length ∧ c'.env.tr.input = [] ∧ hsCount c'.env.tr.events = 0 ∧
@@ -3969,7 +3971,7 @@ def C12Clause3 : Prop :=
 
 theorem C12Clause3_holds : C12Clause3 := by
   unfold C12Clause3
-  exact @eof_any_offset_auth_closed_e2e_unbounded
+  exact @eof_any_offset_auth_closed_e2e_nofuel
 
 end Fcgi.C12E
 end
